@@ -1,6 +1,6 @@
 (* Props/C17.v -- C17: packet framing: the reader accepts every legal framing,
    the writer emits only legal framings.  Statements only. *)
-From Rpgp Require Import Base.Octets Base.Res Frame.Framing Frame.FramingProofs Frame.BodyReader Frame.BodyReaderProofs Io.Emitter Frame.PartialWriter Frame.PartialWriterProofs.
+From Rpgp Require Import Base.Octets Base.Res Frame.Framing Frame.FramingProofs Frame.BodyReader Frame.BodyReaderProofs Io.Emitter Frame.PartialWriter Frame.PartialWriterProofs Frame.FixedWriter Frame.FixedWriterProofs.
 
 (* every legal current-format framing of a body -- any length class for the
    final piece, any sequence of partial chunks 2^k (k <= 30, first k >= 9,
@@ -170,3 +170,10 @@ Theorem C17_partial_writer_no_empty_refill :
   forall tag k h s b s', pw_advance tag k h s = Some (b, s') -> b <> [].
 Proof. exact piece_never_empty. Qed.
 Print Assumptions C17_partial_writer_no_empty_refill.
+
+(* the literal writer for a source of known length (LiteralDataFixedGenerator: the serialised header handed out from where the
+   last read stopped, then the source) delivers the fixed-length framing for every sequence of request sizes *)
+Theorem C17_fixed_writer_machine_is_spec : forall tag h (req : N -> N) data,
+  fw_run tag h req data = (emit_fixed tag h data, EClean).
+Proof. exact fw_machine_is_spec. Qed.
+Print Assumptions C17_fixed_writer_machine_is_spec.
